@@ -100,8 +100,29 @@ def run(idx: Index, rep: Report, tier: str) -> None:
     drains = len(ps_body) == 1 and isinstance(ps_body[0], ast.While) and norm(ps_body[0].test) == "self.stack" and not any(isinstance(x, (ast.Break, ast.Return)) for x in ast.walk(ps_body[0])) and any(isinstance(c, ast.Call) and call_name(c) == "pop" and norm(c.func.value) == "self.stack" for c in ast.walk(ps_body[0]))
     rep.check(drains, rule1, "DagWalker._process_stack returns normally only with an empty stack", ps.loc(), construct="while self.stack: ... self.stack.pop()", function=ps.qualname)
     drain_calls = {n for n, c in cfg_nodes_with_call(cfg, "_process_stack")} if drains else set()
+    # a private helper of the walker that wraps _process_stack and empties the stack before letting an exception
+    # out behaves, for its caller, like the try/except it contains: it returns normally only with a drained stack and
+    # raises only with a cleared one
+    dagc = idx.cls("model.walkers.dag.DagWalker")
+    safe_helpers = set()
+    for hname, h in dagc.methods.items():
+        if not hname.startswith("_") or hname in ("_process_stack", "__init__") or not drains:
+            continue
+        hcfg = cfg_of(h, implicit_raise=True)
+        hcalls = {n for n, c in cfg_nodes_with_call(hcfg, "_process_stack")}
+        if not hcalls:
+            continue
+        hres = {n for n in hcfg.nodes if n.ast is not None and n.kind == "stmt" and _is_reset_of(n.ast, "stack")}
+        leaks = any(feasible_path(hcfg, c_, hcfg.raise_exit, avoid=hres, correlated=False) is not None for c_ in hcalls)
+        if hres and not leaks:
+            safe_helpers.add(hname)
+            rep.note_function(h.qualname)
+    safe_calls = {n for hn in safe_helpers for n, c in cfg_nodes_with_call(cfg, hn)}
+    drain_calls |= safe_calls
 
     def after_drain(node, succ, label, binds):
+        if node in safe_calls and label == "exc":
+            return True  # the helper cleared the stack before raising
         return node in drain_calls and label != "exc"
 
     for p in pushes:
@@ -129,6 +150,15 @@ def run(idx: Index, rep: Report, tier: str) -> None:
     rep.note_function(wk.qualname)
     calls = [n for n, c in cfg_nodes_with_call(wcfg, "iter_walk")]
     clears = {n for n in wcfg.nodes if n.ast is not None and n.kind == "stmt" and _is_reset_of(n.ast, "memoization")}
+    # … or a call of a private helper whose whole body is that conditional reset
+    helper_clears = set()
+    for hname, h in idx.cls("model.walkers.dag.DagWalker").methods.items():
+        if hname.startswith("_") and not hname.startswith("__"):
+            hb = [st for st in h.node.body if not (isinstance(st, ast.Expr) and isinstance(st.value, ast.Constant))]
+            if hb and all(any(_is_reset_of(x, "memoization") for x in ast.walk(st)) for st in hb):
+                for n, c in cfg_nodes_with_call(wcfg, hname):
+                    helper_clears.add(n)
+    clears |= helper_clears
     if not calls or not clears:
         raise AnalysisError("anchor vanished: iter_walk call / memoization.clear() in DagWalker.walk")
 
